@@ -155,7 +155,7 @@ func enumerateDedup(c *Check, a *Anchors) *dedupPaths {
 	d.pe = pe
 	for _, p := range pe.Paths {
 		for k := range p.Asg {
-			if strings.HasPrefix(k, "lookup(") && strings.HasSuffix(k, "#1") {
+			if strings.HasPrefix(k, "lookup(") && strings.Contains(k, "executionHashes") && strings.HasSuffix(k, "#1") {
 				d.lookupOK = k
 				d.recordKey = strings.TrimSuffix(k, "#1") + "#0"
 			}
